@@ -3,6 +3,7 @@ package main
 // Runs the REAL code (pkg.* and the verif hooks) on protocol cases, one JSON line in, one out.
 
 import (
+	"crypto/sha256"
 	"bufio"
 	"bytes"
 	"encoding/base64"
@@ -477,8 +478,9 @@ func implFuzz(h caseHead, raw []byte) map[string]any {
 
 // hist: a history of documents through one compiled profile vs a fresh validation of each document
 type histHead struct {
-	Docs      []string `json:"docs"`
-	Interfere []string `json:"interfere"`
+	Docs      []string  `json:"docs"`
+	Interfere []string  `json:"interfere"`
+	RCs       []*caseRC `json:"rcs"`
 }
 
 func implHist(h caseHead, raw []byte) map[string]any {
@@ -512,11 +514,15 @@ func implHist(h caseHead, raw []byte) map[string]any {
 			other := hh.Interfere[k%len(hh.Interfere)]
 			one(func() (string, error) { return pkg.Validate(other, doc, false, nil) })
 		}
+		rc := defaultRC()
+		if k < len(hh.RCs) && hh.RCs[k] != nil {
+			rc = rcOf(caseHead{RC: hh.RCs[k]})
+		}
 		k1, r1 := one(func() (string, error) {
-			return pkg.ValidateCompiledWithConfiguration(compiled, doc, dbg(h.Profile, doc), nil, fixedClock{}, defaultRC())
+			return pkg.ValidateCompiledWithConfiguration(compiled, doc, dbg(h.Profile, doc), nil, fixedClock{}, rc)
 		})
 		k2, r2 := one(func() (string, error) {
-			return pkg.ValidateWithConfiguration(h.Profile, doc, dbg(h.Profile, doc), nil, fixedClock{}, defaultRC())
+			return pkg.ValidateWithConfiguration(h.Profile, doc, dbg(h.Profile, doc), nil, fixedClock{}, rc)
 		})
 		same := k1 == k2 && r1 == r2
 		if !same {
@@ -524,12 +530,14 @@ func implHist(h caseHead, raw []byte) map[string]any {
 		}
 		// the same document again, later in the history, must give the same report as the first time
 		repeatSame := true
-		if prev, ok := firstSeen[doc]; ok {
+		rk := fmt.Sprintf("%v\x00%s", rc, doc)
+		if prev, ok := firstSeen[rk]; ok {
 			repeatSame = prev == k1+"\n"+r1
 		} else {
-			firstSeen[doc] = k1 + "\n" + r1
+			firstSeen[rk] = k1 + "\n" + r1
 		}
-		positions = append(positions, map[string]any{"compiled": k1, "fresh": k2, "same": same, "repeatSame": repeatSame, "bytes": len(r1)})
+		positions = append(positions, map[string]any{"compiled": k1, "fresh": k2, "same": same, "repeatSame": repeatSame, "bytes": len(r1),
+			"hash": fmt.Sprintf("%x", sha256.Sum256([]byte(r1)))})
 	}
 	res["outcome"] = "ok"
 	res["allSame"] = allSame
